@@ -291,6 +291,17 @@ std::string opBound(const std::vector<std::string>& a) {
     return os.str();
 }
 
+std::string opBlocked(const std::vector<std::string>& a) {
+    // pg blocked <fenP> <fenG>: the blocked mask ProofGame::computeBlocked establishes BEFORE the deadlocked-piece rule
+    // (findInfeasible = true skips computeDeadlockedPieces) -> mask | infeasible      (input generator for `pg deadlock`)
+    if (a.size() != 13) return "bad-op";
+    Position pos = TextIO::readFEN(vFenOf(a, 1, 7));
+    Position goal = TextIO::readFEN(vFenOf(a, 7, 13));
+    U64 blocked = 0;
+    if (!ProofGame::computeBlocked(pos, goal, blocked, true)) return "infeasible";
+    return std::to_string(blocked);
+}
+
 std::string opDeadlock(const std::vector<std::string>& a) {
     if (a.size() != 14) return "bad-op";
     U64 blocked = vToU64(a[1]);
@@ -311,6 +322,7 @@ std::string handle(const std::vector<std::string>& a) {
         if (op == "gengame") return opGenGame(a);
         if (op == "bound") return opBound(a);
         if (op == "deadlock") return opDeadlock(a);
+        if (op == "blocked") return opBlocked(a);
     } catch (const ChessParseError& e) {
         return std::string("err ") + e.what();
     }
